@@ -155,7 +155,7 @@ Proof.
   destruct (run P no_fault w) as [w1 [[b|e]| |]]; cbn [fst] in *; try (split; [exact Hl|left; exact Hm]).
   destruct ((0 <? c_max_balance cfg) && (c_max_balance cfg <? add64 b a)); [split; [exact Hl|left; exact Hm]|].
   destruct w1 as [d1 l1 m1 a1 n1]. cbn [w_db] in *. sx.
-  destruct (l_createerr l1); [sx; split; [exact Hl|left; exact Hm]|].
+  destruct (l_createerr l1 || _); [sx; split; [exact Hl|left; exact Hm]|].
   sx. cbn [mq_amount mq_id].
   destruct (sql_int_ok a && negb (mem id (map mq_id (d_mq d1)))); sx; dbx; [|split; [exact Hl|left; exact Hm]].
   split; [exact Hl|right; rewrite Hm; reflexivity].
